@@ -8,6 +8,7 @@ import (
 	"regexp"
 	"sort"
 	"strings"
+	"syscall"
 
 	"verifh/ref"
 	"verifh/simeth"
@@ -93,8 +94,6 @@ func mkLog(d *world.Decl, addr []byte, seed string) *simeth.Log {
 //	d: one tx without logs
 //	p: one tx: Transfer A, Transfer B, Ping A
 func blockSpec(kind byte, h int) simeth.BlockSpec {
-	tr := func(i int) simeth.Log { return *mkLog(declTransfer, addrA, fmt.Sprintf("h%d/t%d", h, i)) }
-	_ = tr
 	lt := func(addr []byte, i int) *simeth.Log { return mkLog(declTransfer, addr, fmt.Sprintf("h%d/T%d", h, i)) }
 	lp := func(addr []byte, i int) *simeth.Log { return mkLog(declPing, addr, fmt.Sprintf("h%d/P%d", h, i)) }
 	switch kind {
@@ -266,3 +265,12 @@ func sortedKeys[V any](m map[string]V) []string {
 // onlyAtIO is the env-thread reduction: a chain change commutes with everything but RPC exchanges
 // (and is free at step boundaries anyway).
 func onlyAtIO(l string) bool { return strings.HasPrefix(l, "rpc:") || strings.HasPrefix(l, "boundary:") }
+
+// cpuSeconds is the CPU time consumed by this worker process (development statistics only; never an oracle).
+func cpuSeconds() float64 {
+	var ru syscall.Rusage
+	if syscall.Getrusage(syscall.RUSAGE_SELF, &ru) != nil {
+		return 0
+	}
+	return float64(ru.Utime.Sec+ru.Stime.Sec) + float64(ru.Utime.Usec+ru.Stime.Usec)/1e6
+}
